@@ -2,7 +2,7 @@
    and the property predicate computed from the specification side (independent
    VT parser + interpreter vs the short meaning of the command). *)
 From Coq Require Import List NArith ZArith Bool.
-From SNT Require Export Base.Report Base.Outcome Encoder.Decimal Encoder.Utf8 Encoder.Encode Encoder.VT Encoder.Denote Encoder.EncodeStream.
+From SNT Require Export Base.Report Base.Outcome Encoder.Decimal Encoder.Utf8 Encoder.Encode Encoder.VT Encoder.Denote Encoder.EncodeStream Encoder.Term.
 Import ListNotations.
 Local Open Scope N_scope.
 
@@ -49,8 +49,9 @@ Definition c05_check (k : c05_case) : bool * bool :=
         end )
   | Stream cp pre cs oracle impl =>
       let pal := lookup oracle in
-      ( match encode_stream pal pal cp cs, impl with
-        | Ok bs, Some ib => nlist_eqb bs ib
+      ( (* one encoder object, fresh scratch buffer *)
+        match encode_stream_st pal pal cp enc_new cs, impl with
+        | Ok (bs, _), Some ib => nlist_eqb bs ib
         | Panic _, None => true
         | _, _ => false
         end
@@ -58,8 +59,10 @@ Definition c05_check (k : c05_case) : bool * bool :=
         match impl with
         | None => false
         | Some ib =>
+            (* after the complete prefix, the bytes take the terminal -- from the clean state and
+               from two dirty states -- exactly where the commands' meanings take it *)
             vt_complete pre
-            && ops_eqb (vt_ops (pre ++ ib)) (vt_ops pre ++ flat_map (denote pal pal cp) cs)
+            && same_final_state (vt_ops (pre ++ ib)) (vt_ops pre ++ flat_map (denote pal pal cp) cs)
             && vt_complete (pre ++ ib)
         end )
   end.
